@@ -244,6 +244,20 @@ impl X {
                     ("MD5", 1) => Func::md5(a[0].clone()).into(),
                     ("RANDOM", 0) => Func::random().into(),
                     // Postgres-only functions (PgFunc): generated for Postgres text-level workloads only
+                    // two arguments = (regconfig OID as an unsigned value, text)
+                    ("TO_TSQUERY" | "TO_TSVECTOR" | "PHRASETO_TSQUERY" | "PLAINTO_TSQUERY" | "WEBSEARCH_TO_TSQUERY", 2) => {
+                        let cfg = match &args[0] {
+                            X::Val(Value::Unsigned(Some(n))) => Some(*n),
+                            other => panic!("harness: regconfig must be an unsigned value, got {other:?}"),
+                        };
+                        match *name {
+                            "TO_TSQUERY" => PgFunc::to_tsquery(a[1].clone(), cfg).into(),
+                            "TO_TSVECTOR" => PgFunc::to_tsvector(a[1].clone(), cfg).into(),
+                            "PHRASETO_TSQUERY" => PgFunc::phraseto_tsquery(a[1].clone(), cfg).into(),
+                            "PLAINTO_TSQUERY" => PgFunc::plainto_tsquery(a[1].clone(), cfg).into(),
+                            _ => PgFunc::websearch_to_tsquery(a[1].clone(), cfg).into(),
+                        }
+                    }
                     ("TO_TSQUERY", 1) => PgFunc::to_tsquery(a[0].clone(), None).into(),
                     ("TO_TSVECTOR", 1) => PgFunc::to_tsvector(a[0].clone(), None).into(),
                     ("PHRASETO_TSQUERY", 1) => PgFunc::phraseto_tsquery(a[0].clone(), None).into(),
